@@ -11,7 +11,7 @@ PROP = {
             "layouts, poison when values), and under unless with 0..3 else clauses; (2) case equality matrix over the 53 simple "
             "values (53 x 53); (3) if/unless duality for every universe value, every poison expression and 8000 (quick) / 60000 "
             "(thorough) generated conditions (comparisons, contains, and/or, filters, injected evaluation errors) over generated "
-            "environments; (4) 20000 / 200000 generated conditional programs: if chains with 1..6 conditional branches, unless, "
+            "environments: the two real renders must give equal bytes, or both fail with the same kind of error; (4) 20000 / 200000 generated conditional programs: if chains with 1..6 conditional branches, unless, "
             "case/when with 1..3 values per clause, nesting <= 4, mixed with for loops (depth <= 2); conditions are variables bound "
             "to universe values, literals, loop variables, forloop.first/last, integer comparisons on forloop fields, generated "
             "comparison/contains/and/or expressions over a generated schema (their outcome is measured with an assign+print probe "
@@ -35,11 +35,9 @@ TEXT = {
               'rendering an if/elsif/else or unless chain equals rendering the body that List.find? selects - the first branch '
               'whose test is not falsy - or failing with that test\'s error at its own tag, or nothing (if_denotation, '
               'if_denotation_selects, if_node_denotation); likewise the clauses of a case over the first clause that is an else '
-              'or lists a value equal to the subject (case_denotation, case_node_denotation, case_subject_err). From source bytes (Proofs.C10Source, through scan_spell, the block parser and the compiler, for every good delimiter set and all self-contained bodies A, B): the one-line sources {% if c %}A{% else %}B{% endif %} and {% unless c %}B{% else %}A{% endunless %} give the same result of run for every condition text c, value layer and environment (if_else_unless_dual_source; the one-line condition is needed: with a newline inside a body the two forms can report the same failure at different lines, dual_lines_differ; on any number of lines, for bodies without include and a start line >= 1, the two results agree up to the line of the error - same output, or errors with the same cause, message and path flag, if_else_unless_dual_up_to_line_source, by a proof that rendering does not depend on the line numbers of the nodes except in the line of an error, lineRel_renderNode), both fail with a syntax error at the line of their tag when c is not an expression (if_else_bad_condition_source), and {% if c %}A{% endif %} renders nothing when c evaluates falsy and succeeds exactly when A does, with the output of A, when truthy (if_source, unless_source); for a whole chain {% if c0 %}A0{% elsif c1 %}A1 ... {% else %}E{% endif %} with any number of clauses (all compiling): the block succeeds exactly when the body of the first clause whose condition is truthy (or the else clause) does, as a template of its own where it stands, with exactly that output - later conditions and bodies play no part - and renders nothing when every condition is falsy (if_chain_first_source, if_chain_clause_source, if_chain_none_source: if_denotation read on source text); {% case s %}{% when vs %}A{% else %}E{% endcase %} succeeds exactly as A when one of the when values equals the subject and exactly as E when none does (case_when_else_source). Tie: the `cond` stream answers every case by the model and the '
-              'real engine, and an independent reference (harness/ref_prog.go) checks the selected marker, laziness and the '
-              'if/unless duality on the real output.'),
+              'or lists a value equal to the subject (case_denotation, case_node_denotation, case_subject_err). From source bytes (Proofs.C10Source: run on the text `spell d items`, read back through scan_spell, the block parser and the compiler; for every good delimiter set, every clean item list - Clean: the items are what the tokenizer reads back from their spelling, i.e. no opening delimiter begins inside a text and the closing delimiter of a tag or object is the first one after its opening - and all self-contained bodies A, B): the one-line sources {% if c %}A{% else %}B{% endif %} and {% unless c %}B{% else %}A{% endunless %} give the same result of run for every such condition text c, value layer and environment (if_else_unless_dual_source; the one-line condition is needed, dual_lines_differ); on any number of lines, for bodies without an include tag and a start line >= 1, the two results agree up to the line of the error - same output, or errors with the same cause, message and path flag (if_else_unless_dual_up_to_line_source, through lineRel_renderNode: rendering depends on the line numbers of the nodes only in the line of an error); both fail with a syntax error at the line of their tag when c is not an expression (if_else_bad_condition_source); when c is an expression that evaluates without error, {% if c %}A{% endif %} renders nothing for a falsy value and succeeds exactly when A does, with the output of A, for a truthy one (if_source; unless_source with the two exchanged); for an `if` chain {% if c0 %}A0{% elsif c1 %}A1 ... {% else %}E{% endif %} with any number of clauses (all compiling) in which c0 and every elsif condition before the selected clause evaluate, without error, to nil or false: the block succeeds exactly when the body of the first clause whose condition evaluates truthy (or the else clause) does, as a template of its own where it stands, with exactly that output - later conditions and bodies play no part - and renders nothing when there is no else clause and every condition evaluates to nil or false (if_chain_first_source, if_chain_clause_source, if_chain_none_source: the error-free cases of if_denotation read on source text); {% case s %}{% when vs %}A{% else %}E{% endcase %}, the subject and the when values evaluating and comparing without error, succeeds exactly as A when one of the when values equals the subject and exactly as E when none does (case_when_else_source). Tie: the `cond` stream answers every case by the model and the real engine, and an independent reference (harness/ref_prog.go) checks the selected marker and laziness on the real output; the if/unless duality is checked between two real renders (equal bytes; two failures are compared by their error kind only).'),
     "design_ref": 'DESIGN.md 6 C10',
-    "note": NOTE + (""),
+    "note": NOTE + ("The tree-level theorems (Proofs.C10) cover failing conditions (if_cond_err, if_denotation, case_denotation, case_subject_err); the source-level chain and case theorems do not: they are stated for `if` chains (not `unless` chains) in which every condition up to the selected clause evaluates without error, and for a case with one when clause and an else whose subject and when values evaluate and compare without error; if_source / unless_source need c to be an expression that evaluates. All source-level theorems need a clean item list (Clean, DESIGN 7.1) and compare results of run, i.e. on a writer that does not fail. The duality is an equality of results for one-line sources only; on several lines it holds up to the line of the error, proved for bodies without an include tag and a start line >= 1 (the other cases are not known to fail). On the real engine the duality oracle compares bytes, and for two failing renders the error kind only (message and line are compared through the model)."),
     "technique": ('Lean 4 proof (induction over the branch list of the render model; closed forms over List.find?) + model/implementation correspondence + '
               'independent reference and metamorphic oracle'),
 }
